@@ -221,6 +221,7 @@ def property_from_data(  # noqa: PLR0911, PLR0912
             schemas=schemas,
             parent_name=parent_name,
             config=config,
+            roots=roots,
         )
     if data.const is not None:
         return (
